@@ -106,7 +106,7 @@ def extra_programs(genfn, nq, nt, per=120, what='the compiled program observes b
     def one(args):
         seed, start, count, tag = args
         src, cases = genfn(seed, start, count)
-        base = f'{vlib.WORK}/l2/{tag}_twin_{start}'
+        base = f'{vlib.WORK}/l2/{tag}_{genfn.__name__[4:]}_{start}'
         os.makedirs(os.path.dirname(base), exist_ok=True)
         open(base + '.rs', 'w').write(src)
         r = l2.rustc(base + '.rs', base + '.bin')
@@ -569,7 +569,7 @@ PROPS.update({
         theorems=[(CMP + 'C11', ['DX.defaultCtorArgs_vals', 'DX.into_iff_strlit_or_path', 'DX.default_struct_follows_doc',
                                  'DX.default_enum_rejections', 'DX.default_enum_follows_doc'])],
         l1=[('basic', 4000, 150000), ('all', 3000, 100000), ('ext', 24000, 640000)],
-        extra=extras(extra_cmp_l2('defaultRun', None, 600, 12000), extra_programs(l2gen.gen_c11_program, 800, 16000, per=200, what='default() does not return the documented value'), extra_verdicts(l2gen.gen_c11_reject_case, 96, 1200), extra_twins(360, 6000)),
+        extra=extras(extra_cmp_l2('defaultRun', None, 600, 12000), extra_programs(l2gen.gen_c11_program, 800, 16000, per=200, what='default() does not return the documented value'), extra_verdicts(l2gen.gen_c11_reject_case, 96, 1200), extra_twins(360, 6000), extra_programs(l2gen.gen_macro_value_program, 80, 1600, per=40, what='an item, a helper-attribute argument or an impl body that comes out of a macro_rules! macro changed its value: a fragment lost its grouping')),
         labels=r':Default$',
     ),
     'C12': dict(
@@ -626,7 +626,8 @@ PROPS.update({
         l1_concrete_text='the re-emitted item differs from the input minus the documented derive_ex-owned attributes (the model, proved equal to docStrip*)',
         extra=extras(extra_programs(l2gen.gen_c14_program, 120, 2400, what='foreign content of the annotated item did not survive the attribute macro'),
                      extra_verdicts(l2gen.gen_c14_error_case, 96, 1200),
-                     extra_rustc(l2gen.gen_macro_case, 120, 3000)),
+                     extra_rustc(l2gen.gen_macro_case, 120, 3000),
+                     extra_programs(l2gen.gen_macro_value_program, 80, 1600, per=40, what='an item, a helper-attribute argument or an impl body that comes out of a macro_rules! macro changed its value: a fragment lost its grouping')),
     ),
     'C15': dict(
         explanation='theorems: the impls are the same through either entry point, for merged and split lists, in list order (entry_equiv_*, split_equiv, order_preserved); an entry of the list yields the same impls under any two co-derived sets when the item carries no helper attribute that belongs only to the other traits (struct_any_coderived_set, enum_any_coderived_set). Metamorphic real-vs-real comparisons need no model: attribute macro vs #[derive(Ex)], merged vs split, one trait alone vs with the others.',
